@@ -2,6 +2,7 @@
 	use crate::verif_lib::{any_dt, bare_params, fixed_random_state, ku_of};
 	use crate::{CertificateParams, DistinguishedName, IsCa, RemoteKeyPair, SignatureAlgorithm, PKCS_ED25519};
 	use time::OffsetDateTime;
+	use yasna::DERWriter;
 
 	struct Rk { pk: [u8; 4] }
 	impl RemoteKeyPair for Rk {
@@ -159,3 +160,7 @@
 			Err(_) => assert!(false),
 		}
 	}
+
+	// A byte-level run of RevokedCertParams::write_der (serial 05, symbolic reason code, time writer replaced by a recorder)
+	// was tried during the build: no answer in 1200 s. The entry writer is decided by engine S (shape, guards, GeneralizedTime)
+	// plus crl.reason.codes.
